@@ -24,10 +24,10 @@ def run(ctx):
     })
     # bounded stand-in for the std-iterator views (never counted as proved)
     caps = ['cap1', 'cap2', 'cap3'] if ctx.tier == 'quick' else ['cap1', 'cap2', 'cap3', 'cap4']
-    note = ('BOUNDED (not proof): iter / iter_loop / iter_mut / slices_mut write-through checked by Kani for capacity in %s '
+    note = ('BOUNDED (not proof): iter / iter_loop / iter_mut / slices_mut write-through / Extend checked by Kani for capacity in %s '
             'only, every (start,len)/first, symbolic i32 contents, loops unwound 8 with unwinding assertions' % caps)
     ctx.bounded.append(note)
-    run_kani(ctx, 'ring_buffer', harness=caps, bounded_note=note, harness_timeout='10m')
+    run_kani(ctx, 'ring_buffer', harness=caps, bounded_note=note, harness_timeout='10m')   # cap1.. also match extend_cap1..
 
 
 def prepare_replay(rec):
